@@ -77,7 +77,18 @@ fn unlimited() -> ExecuteOptions {
 fn gen_query(rng: &mut Rng) -> (String, bool, &'static str) {
     let n = *rng.pick(&[1usize, 2, 7, 30, 100, 400]);
     let m = *rng.pick(&[1usize, 3, 10, 25]);
-    match rng.below(14) {
+    let k = *rng.pick(&[0usize, 1, 3, 10, 50]);
+    let j = *rng.pick(&[0usize, 1, 5, 40]);
+    match rng.below(23) {
+        14 => (format!("UNWIND range(1, {n}) AS x RETURN x SKIP {k}"), false, "skip"),
+        15 => (format!("UNWIND range(1, {n}) AS x RETURN x SKIP {k} LIMIT {j}"), false, "skip-limit"),
+        16 => (format!("UNWIND range(1, {n}) AS x WITH x SKIP {k} RETURN count(x) AS c"), false, "with-skip"),
+        17 => (format!("UNWIND range(1, {n}) AS x WITH x ORDER BY x DESC LIMIT {j} RETURN x"), false, "with-order-limit"),
+        18 => (format!("UNWIND range(1, {n}) AS x RETURN x UNION ALL UNWIND range(1, {m}) AS x RETURN x"), false, "union-all"),
+        19 => (format!("UNWIND range(1, {n}) AS x WITH collect(x) AS xs UNWIND xs AS y RETURN y"), false, "collect-unwind"),
+        20 => ("MATCH (a) WHERE exists { MATCH (a)-->() } RETURN id(a) AS a".into(), false, "exists-subquery"),
+        21 => (format!("UNWIND range(1, {n}) AS x RETURN x LIMIT {j}"), false, "limit"),
+        22 => (format!("UNWIND range(1, {n}) AS x RETURN DISTINCT x % 7 AS r SKIP {k}"), false, "distinct-skip"),
         0 => (format!("UNWIND range(1, {n}) AS x RETURN x"), false, "unwind-range"),
         1 => (format!("UNWIND range(1, {n}) AS x UNWIND range(1, {m}) AS y RETURN x, y"), false, "nested-unwind"),
         2 => ("MATCH (a), (b) RETURN id(a) AS a, id(b) AS b".into(), false, "cartesian-match"),
@@ -167,7 +178,11 @@ fn one_case(seed: u64, k: usize, out: &mut CaseOut) {
                 Outcome::LimitError(_) => {
                     out.count(&format!("limit_tripped.{kind}"), 1);
                     // bounded extra work for the row limit: the counter may pass the limit by one
-                    if kind == "rows" && r.emitted > lim + 1 {
+                    // (a subquery inside a predicate is evaluated per outer row by separate
+                    // executions sharing the budget: the trip surfaces at the next outer row, so
+                    // "shortly after" is one outer iteration there, not one row)
+                    let bound = if fam == "exists-subquery" { 2 * lim + 2 } else { lim + 1 };
+                    if kind == "rows" && r.emitted > bound {
                         out.violations.push(Violation {
                             signature: format!("C33|work-continues-after-row-limit|{fam}"),
                             summary: format!("{q}: row limit {lim}, but {} rows had been emitted when the error surfaced", r.emitted),
